@@ -447,12 +447,74 @@ def witness_check(chk, stats):
     return out
 
 
+def collide_cases(chk):
+    cases = []
+    combos = [(n, t) for n in (2, 3) for t in range(n)]
+    if chk.tier == 'quick':
+        i = 0
+        for kind in ('del', 'sdiffstore'):
+            for n, t in combos:
+                cases.append((kind, n, t, 1 + i % 3, (i // 3) % 2)); i += 1
+    else:
+        for kind in ('del', 'sdiffstore'):
+            for n, t in combos:
+                for conns in (1, 2, 3):
+                    for active in (0, 1):
+                        cases.append((kind, n, t, conns, active))
+    return cases
+
+
+def collide_monitor(r):
+    """summary-line monitor of one collide run; returns description or None"""
+    if not r.startswith('collide kind='):
+        return 'scenario did not complete: ' + r[:200]
+    m = dict(t.split('=', 1) for t in r.split() if '=' in t)
+    fr = r.split('final_read=')[1].split(' dst_has_key=')[0]
+    if m.get('gates', '000')[:2] != '11':
+        return None if (m.get('dst_has_key') == '0' and fr in ('A 0', 'BN')) else 'key present after an acknowledged delete (gates not reached): ' + r[:200]
+    if m.get('dst_has_key') != '0' or m.get('src_has_key') != '0' or fr not in ('A 0', 'BN'):
+        return ('a key deleted by an acknowledged command is readable again after the migration: final_read=%s dst_has_key=%s; the scan batch touched the key while '
+                'the push path (UMSYNC) for it owned the lock slot (gates=%s: scanner RESTORE in flight before the UMSYNC finished)' % (fr, m.get('dst_has_key'), m.get('gates')))
+    return None
+
+
+def collide_check(chk, pushes, stats):
+    """directed schedule: n range keys with the SAME migration lock slot in ONE scan batch while the UMSYNC (push-before-delete) of
+    one of them owns that lock slot on the source proxy; the scanner must not touch any of them until the push path is done"""
+    out = []
+    lines = []
+    for i, (kind, n, t, conns, active) in enumerate(collide_cases(chk)):
+        path = '%s/c03_col_%s_%d.jsonl' % (vlib.WORK, chk.tier, i)
+        if os.path.exists(path): os.remove(path)
+        lines.append(('collide kind=%s n=%d target=%d conns=%d active=%d out=%s' % (kind, n, t, conns, active, path), path, kind))
+    rc, res = chk.run_impl('migrate', [l for l, _, _ in lines], timeout=900)
+    reached = 0
+    for (line, path, kind), r in zip(lines, res + ['<no output>'] * (len(lines) - len(res))):
+        chk.count(line, True)
+        stats['collide'].append(r)
+        if ' gates=11' in r: reached += 1
+        bad = collide_monitor(r)
+        if bad:
+            out.append({'kind': 'monitor', 'case': line, 'impl': r, 'what': bad,
+                        'model': 'Model/Migrate.v: EvScanLock needs slock = None and the fast push path holds slock from EvSyncLock to EvFastDel/EvFastDump-skip; '
+                                 'a scanner PTTL/DUMP of the key between the push path\'s PTTL and DEL is not a run'})
+        if kind == 'del' and os.path.exists(path):
+            out += run_one_trace(chk, line, path, pushes, stats)
+    stats['collide_schedule_reached'] = reached
+    if reached < len(lines):
+        out.append({'kind': 'correspondence', 'what': 'directed collide schedule not reached in %d of %d runs (scan gate / UMSYNC gate)' % (len(lines) - reached, len(lines)),
+                    'runs': [r for r in res if ' gates=11' not in r][:4], 'no_input': True})
+    return out
+
+
 def run(chk):
     ok = vlib.standard_proof_phase(chk, TRUSTED, 'migrate')
     chk.cov['rule'] = ('cases = (i) every command name of docs/command_table.json through the real requires_blocking_migration (exhaustive), '
                        '(ii) complete live migrations of a 8192-slot range between two real proxies under seeded random client traffic (GET/SET/DEL/APPEND on keys in and out of the range, '
                        'backend connections 1..3, active redirection on/off, 0-2 ms stand-in latency), each yielding one acceptor case per in-range key, '
-                       '(iii) deterministic witness replays (held scanner RESTORE vs SDIFFSTORE/SINTERSTORE/DEL). evaluations = acceptor cases + classify cases + witness cases; '
+                       '(iii) deterministic witness replays (held scanner RESTORE vs SDIFFSTORE/SINTERSTORE/DEL), (iv) directed lock-collision schedules '
+                       '(2 or 3 range keys with the same migration lock slot in one scan batch while the UMSYNC of one of them - first / later in the batch, DEL or SDIFFSTORE - '
+                       'holds the slot lock: held SCAN, held UMSYNC PTTL, held scanner RESTORE), each DEL run also through acceptor + monitors. evaluations = acceptor cases + classify cases + witness cases; '
                        'non-trivial = distinct per-key trace with more than 3 Redis-level events on the key (it was pulled, pushed or scanned while clients used it)')
     if not ok:
         return
@@ -467,8 +529,9 @@ def run(chk):
     _, cls = chk.run_impl('migrate', ['classify ' + n for n in ('GET', 'SET', 'DEL', 'APPEND')])
     pushes = {o.split()[1]: o.split()[2] == '1' for o in cls if o.startswith('classify')}
     stats = {'client_ops': 0, 'error_replies': 0, 'overlap': {}, 'keys': 0, 'key_events': 0, 'accepted': 0, 'hidden_steps': 0, 'budget': 0,
-             'outside_premise': [], 'witness': [], 'runs': [], 'timeouts': 0}
+             'outside_premise': [], 'witness': [], 'runs': [], 'timeouts': 0, 'collide': []}
     viol = witness_check(chk, stats)
+    viol += collide_check(chk, pushes, stats)
     for i, c in enumerate(mig_cases(chk)):
         path = '%s/c03_%s_%d.jsonl' % (vlib.WORK, chk.tier, i)
         line = case_line(c, path)
@@ -487,7 +550,8 @@ def run(chk):
     chk.sub('distribution', migrations=len(stats['runs']), incomplete_runs=stats['timeouts'], client_ops=stats['client_ops'], error_replies=stats['error_replies'],
             client_ops_on_range_keys_overlapping_source_phase=stats['overlap'], keys=stats['keys'], observed_events_on_keys=stats['key_events'],
             accepted=stats['accepted'], hidden_model_steps=stats['hidden_steps'], acceptor_budget_exceeded=stats['budget'],
-            accepted_only_outside_premise=stats['outside_premise'][:10], witness=stats['witness'], run_summaries=stats['runs'][:12])
+            accepted_only_outside_premise=stats['outside_premise'][:10], witness=stats['witness'], run_summaries=stats['runs'][:12],
+            collide=stats['collide'][:20], collide_schedule_reached=stats.get('collide_schedule_reached'))
     for v in viol:
         ni = v.pop('no_input', False)
         chk.violation(v, no_input=ni)
@@ -511,6 +575,24 @@ def replay(data):
         badr = ('dst_has_key=1' in r) or ('final_read=A 0' not in r and 'final_read=BN' not in r)
         print('model: C03_unclassified_delete_refuted predicts resurrection iff the command is not classified deleting')
         return 1 if badr else 0
+    if c.startswith('collide'):
+        _, impl = chk.run_impl('migrate', [c], timeout=300)
+        print('case :', c); print('impl :', impl)
+        r = impl[0] if impl else ''
+        bad = collide_monitor(r)
+        print('monitor:', bad)
+        v = []
+        path = re.search(r'out=(\S+)', c).group(1)
+        if 'kind=del' in c and os.path.exists(path):
+            _, cls = chk.run_impl('migrate', ['classify ' + n for n in ('GET', 'SET', 'DEL', 'APPEND')])
+            pushes = {o.split()[1]: o.split()[2] == '1' for o in cls if o.startswith('classify')}
+            stats = {'client_ops': 0, 'error_replies': 0, 'overlap': {}, 'keys': 0, 'key_events': 0, 'accepted': 0, 'hidden_steps': 0, 'budget': 0,
+                     'outside_premise': [], 'witness': [], 'runs': [], 'timeouts': 0, 'collide': []}
+            v = run_one_trace(chk, c, path, pushes, stats)
+            print('keys=%d accepted=%d' % (stats['keys'], stats['accepted']))
+            for x in v[:4]:
+                print(json.dumps(x)[:1200])
+        return 1 if (bad or v) else 0
     if c.startswith('mig'):
         _, cls = chk.run_impl('migrate', ['classify ' + n for n in ('GET', 'SET', 'DEL', 'APPEND')])
         pushes = {o.split()[1]: o.split()[2] == '1' for o in cls if o.startswith('classify')}
@@ -519,7 +601,7 @@ def replay(data):
         if rerun:
             _, res = chk.run_impl('migrate', [c], timeout=150); print('impl :', res)
         stats = {'client_ops': 0, 'error_replies': 0, 'overlap': {}, 'keys': 0, 'key_events': 0, 'accepted': 0, 'hidden_steps': 0, 'budget': 0,
-                 'outside_premise': [], 'witness': [], 'runs': [], 'timeouts': 0}
+                 'outside_premise': [], 'witness': [], 'runs': [], 'timeouts': 0, 'collide': []}
         v = run_one_trace(chk, c, path, pushes, stats)
         print('trace:', path, '(recorded schedule; a fresh run samples a new schedule)' if not rerun else '(fresh run)')
         print('keys=%d accepted=%d violations=%d' % (stats['keys'], stats['accepted'], len(v)))
